@@ -3,6 +3,8 @@ package harness
 import (
 	"context"
 	"math"
+	"sync"
+	"time"
 
 	enginetypes "github.com/projecteru2/core/engine/types"
 	plugintypes "github.com/projecteru2/core/resource/plugins/types"
@@ -17,6 +19,17 @@ import (
 type shadowPlugin struct {
 	sim  *simrt.Sim
 	inst *simrt.Instance
+	// slowCapacity: a capacity query takes this long unless the caller's context ends first
+	// (C19 at the calcium level watches under which context a multi-lock section runs)
+	mu           sync.Mutex
+	slowCapacity time.Duration
+	cancelledAt  []time.Time
+}
+
+func (p *shadowPlugin) cancelled() []time.Time {
+	p.mu.Lock()
+	defer p.mu.Unlock()
+	return append([]time.Time{}, p.cancelledAt...)
 }
 
 func (p *shadowPlugin) Name() string { return "shadow" }
@@ -68,6 +81,21 @@ func (p *shadowPlugin) RemoveNode(ctx context.Context, nodename string) (*plugin
 func (p *shadowPlugin) GetNodesDeployCapacity(ctx context.Context, nodenames []string, _ plugintypes.WorkloadResourceRequest) (*plugintypes.GetNodesDeployCapacityResponse, error) {
 	if err := p.step("GetNodesDeployCapacity"); err != nil {
 		return nil, err
+	}
+	p.mu.Lock()
+	d := p.slowCapacity
+	p.mu.Unlock()
+	if d > 0 {
+		t := time.NewTimer(d)
+		defer t.Stop()
+		select {
+		case <-ctx.Done():
+			p.mu.Lock()
+			p.cancelledAt = append(p.cancelledAt, time.Now())
+			p.mu.Unlock()
+			return nil, ctx.Err()
+		case <-t.C:
+		}
 	}
 	r := &plugintypes.GetNodesDeployCapacityResponse{NodeDeployCapacityMap: map[string]*plugintypes.NodeDeployCapacity{}, Total: math.MaxInt64}
 	for _, n := range nodenames {
